@@ -198,7 +198,12 @@ pub fn feature_list(p: &Placement, pol: Policy) -> Vec<String> {
     list
 }
 
-pub fn expected(p: &Placement, probe: &Probe, default: &str, pol: Policy) -> String {
+/// Values the builtin features give to the probe options, read from the binary itself by
+/// single-source runs (`--no-gitconfig --features <builtin> --show-config`): what a builtin
+/// feature sets is data, not precedence, and must not cause an alarm when it legitimately changes.
+pub type BuiltinTable = BTreeMap<(String, String), String>;
+
+pub fn expected(p: &Placement, probe: &Probe, default: &str, pol: Policy, table: &BuiltinTable) -> String {
     if let Some(v) = &p.cli_value {
         return v.clone();
     }
@@ -219,15 +224,15 @@ pub fn expected(p: &Placement, probe: &Probe, default: &str, pol: Policy) -> Str
                 }
             }
         }
-        if let Some((_, v)) = probe.builtin.iter().find(|(b, _)| *b == f) {
-            return v.to_string();
+        if let Some(v) = table.get(&(probe.name.to_string(), f.clone())) {
+            return v.clone();
         }
     }
     default.to_string()
 }
 
-pub fn acceptable(p: &Placement, probe: &Probe, default: &str) -> BTreeSet<String> {
-    policies().into_iter().map(|pol| expected(p, probe, default, pol)).collect()
+pub fn acceptable(p: &Placement, probe: &Probe, default: &str, table: &BuiltinTable) -> BTreeSet<String> {
+    policies().into_iter().map(|pol| expected(p, probe, default, pol, table)).collect()
 }
 
 // ---------------------------------------------------------------------------
@@ -732,7 +737,7 @@ fn observe(env: &Env, ctx: &Ctx, p: &Placement, hash_seed: u64) -> Option<Obs> {
     }
 }
 
-pub fn check_placement(env: &Env, ctx: &Ctx, p: &Placement, defaults: &BTreeMap<String, String>, hash_seeds: &[u64]) -> (Vec<Violation>, Vec<Obs>) {
+pub fn check_placement(env: &Env, ctx: &Ctx, p: &Placement, defaults: &BTreeMap<String, String>, table: &BuiltinTable, hash_seeds: &[u64]) -> (Vec<Violation>, Vec<Obs>) {
     let probe = PROBES.iter().find(|x| x.name == p.probe).unwrap();
     let mut out = Vec::new();
     let mut obs = Vec::new();
@@ -745,7 +750,7 @@ pub fn check_placement(env: &Env, ctx: &Ctx, p: &Placement, defaults: &BTreeMap<
         return (out, obs);
     }
     let default = defaults.get(&p.probe).cloned().unwrap_or_default();
-    let acc = acceptable(p, probe, &default);
+    let acc = acceptable(p, probe, &default, table);
     let o0 = &obs[0];
     if o0.exit != Some(0) {
         out.push(Violation::new("P0-runs", &format!("{}:exit", p.probe), format!("--show-config exited with {:?}: {}", o0.exit, o0.stderr)));
@@ -777,6 +782,32 @@ pub fn check_placement(env: &Env, ctx: &Ctx, p: &Placement, defaults: &BTreeMap<
     (out, obs)
 }
 
+fn calibrate_builtins(env: &Env, ctx: &Ctx, defaults: &BTreeMap<String, String>) -> BuiltinTable {
+    let mut t = BuiltinTable::new();
+    for probe in PROBES {
+        for b in BUILTINS {
+            let mut p = Placement::default();
+            p.probe = probe.name.to_string();
+            p.no_gitconfig = true;
+            p.cli_features = Some(vec![b.to_string()]);
+            if let Some(o) = observe(env, ctx, &p, 1) {
+                if let Some(v) = o.shown {
+                    if Some(&v) != defaults.get(probe.name) {
+                        t.insert((probe.name.to_string(), b.to_string()), v);
+                    }
+                }
+            }
+        }
+        // cross-check with the transcribed table (a note, never a verdict)
+        for (b, v) in probe.builtin {
+            if t.get(&(probe.name.to_string(), b.to_string())).map(|x| x.as_str()) != Some(*v) {
+                eprintln!("NOTE: builtin feature {} gives {} = {:?} on this tree (transcribed from the sources: {:?})", b, probe.name, t.get(&(probe.name.to_string(), b.to_string())), v);
+            }
+        }
+    }
+    t
+}
+
 fn calibrate_defaults(env: &Env, ctx: &Ctx) -> BTreeMap<String, String> {
     let mut m = BTreeMap::new();
     for probe in PROBES {
@@ -798,9 +829,9 @@ fn replay_json(p: &Placement, v: &Violation, hash_seeds: &[u64], seed: u64) -> s
         "command": {"args": spec.args, "env": spec.env, "gitconfig": gitconfig_text(p)}})
 }
 
-fn minimise(env: &Env, ctx: &Ctx, p: &Placement, defaults: &BTreeMap<String, String>, hash_seeds: &[u64], oracle: &str) -> Placement {
+fn minimise(env: &Env, ctx: &Ctx, p: &Placement, defaults: &BTreeMap<String, String>, table: &BuiltinTable, hash_seeds: &[u64], oracle: &str) -> Placement {
     let mut best = p.clone();
-    let still = |c: &Placement| -> bool { check_placement(env, ctx, c, defaults, hash_seeds).0.iter().any(|v| v.oracle == oracle) };
+    let still = |c: &Placement| -> bool { check_placement(env, ctx, c, defaults, table, hash_seeds).0.iter().any(|v| v.oracle == oracle) };
     let mut budget = 40;
     loop {
         let mut changed = false;
@@ -857,6 +888,7 @@ pub fn main_c13(env: &Env, tier: &str, seed: u64, replay: Option<&str>) -> i32 {
         eprintln!("HARNESS-ERROR: could not read defaults for all probe options: {:?}", defaults);
         return 2;
     }
+    let table = calibrate_builtins(env, &ctx0, &defaults);
     if let Some(path) = replay {
         let text = std::fs::read_to_string(path).unwrap_or_default();
         let v: serde_json::Value = match serde_json::from_str(&text) {
@@ -869,7 +901,7 @@ pub fn main_c13(env: &Env, tier: &str, seed: u64, replay: Option<&str>) -> i32 {
         let p: Placement = serde_json::from_value(v["placement"].clone()).unwrap();
         let hs: Vec<u64> = serde_json::from_value(v["hash_seeds"].clone()).unwrap();
         let oracle = v["oracle"].as_str().unwrap_or("");
-        let (vs, _) = check_placement(env, &ctx0, &p, &defaults, &hs);
+        let (vs, _) = check_placement(env, &ctx0, &p, &defaults, &table, &hs);
         return match vs.iter().find(|x| x.oracle == oracle) {
             Some(x) => {
                 println!("VIOLATION property=C13 replay={}", path);
@@ -897,7 +929,7 @@ pub fn main_c13(env: &Env, tier: &str, seed: u64, replay: Option<&str>) -> i32 {
         let mut hs = hash_seeds.clone();
         // every placement additionally sees one seed from the pool
         hs.push(all_hash[i % all_hash.len()]);
-        let (v, obs) = check_placement(env, ctx, p, &defaults, &hs);
+        let (v, obs) = check_placement(env, ctx, p, &defaults, &table, &hs);
         (v, obs.len(), hs)
     });
 
@@ -923,7 +955,7 @@ pub fn main_c13(env: &Env, tier: &str, seed: u64, replay: Option<&str>) -> i32 {
             }
         }
         let probe = PROBES.iter().find(|x| x.name == p.probe).unwrap();
-        if acceptable(p, probe, &defaults[&p.probe]).len() > 1 {
+        if acceptable(p, probe, &defaults[&p.probe], &table).len() > 1 {
             unordered_cases += 1;
         }
         for v in vs {
@@ -937,14 +969,14 @@ pub fn main_c13(env: &Env, tier: &str, seed: u64, replay: Option<&str>) -> i32 {
                 continue;
             }
             // confirm by replay
-            let (again, _) = check_placement(env, &ctx0, p, &defaults, hs);
+            let (again, _) = check_placement(env, &ctx0, p, &defaults, &table, hs);
             if !again.iter().any(|x| x.oracle == v.oracle) {
                 eprintln!("NOTE: violation did not reproduce, not reported: {}", v.message);
                 continue;
             }
             reported.insert(key);
-            let m = minimise(env, &ctx0, p, &defaults, hs, &v.oracle);
-            let (mv, _) = check_placement(env, &ctx0, &m, &defaults, hs);
+            let m = minimise(env, &ctx0, p, &defaults, &table, hs, &v.oracle);
+            let (mv, _) = check_placement(env, &ctx0, &m, &defaults, &table, hs);
             let mv = mv.into_iter().find(|x| x.oracle == v.oracle).unwrap_or_else(|| v.clone());
             let path = write_replay("C13", &format!("{}-{}", v.oracle, reported.len()), &replay_json(&m, &mv, hs, seed));
             println!("VIOLATION property=C13 replay={}", path.display());
@@ -968,14 +1000,15 @@ pub fn main_c13(env: &Env, tier: &str, seed: u64, replay: Option<&str>) -> i32 {
     ev.violations = reported.len() as u64;
     ev.samples = placements.iter().step_by((placements.len() / 5).max(1)).take(5).map(|p| {
         let spec = to_spec(p, 1);
-        json!({"probe": p.probe, "sources": p.sources, "args": spec.args, "env": spec.env, "gitconfig": gitconfig_text(p), "model_accepts": acceptable(p, PROBES.iter().find(|x| x.name == p.probe).unwrap(), &defaults[&p.probe])})
+        json!({"probe": p.probe, "sources": p.sources, "args": spec.args, "env": spec.env, "gitconfig": gitconfig_text(p), "model_accepts": acceptable(p, PROBES.iter().find(|x| x.name == p.probe).unwrap(), &defaults[&p.probe], &table)})
     }).collect();
     ev.extra.insert("engine".into(), json!("E1-proc: real delta binary under LD_PRELOAD shim (getrandom stream = hash seed, clock pinned), hermetic HOME/XDG/PATH/cwd"));
     ev.extra.insert("real_vs_stub".into(), json!({"real": ["all of delta incl. clap, git2 config parsing"], "stub": ["none needed (--show-config starts no peers)"]}));
     ev.extra.insert("probe_defaults_read_from_binary".into(), json!(defaults));
+    ev.extra.insert("builtin_feature_values_read_from_binary".into(), json!(table.iter().map(|((p, b), v)| format!("{}: {} = {}", b, p, v)).collect::<Vec<_>>()));
     ev.assumptions = vec![
         "reference model written from the manual and the comments in options/set.rs, options/get.rs; where the documentation leaves an order open (several builtin feature flags in one place, names inside one '+'-prefixed DELTA_FEATURES, that list relative to --features) every order is accepted and only determinism is required".into(),
-        "values of builtin features for the probe options are transcribed from the feature definitions".into(),
+        "what each builtin feature sets for a probe option is read from the binary by single-source runs (and cross-checked against a transcription of the feature definitions); the defaults likewise".into(),
         "options with special post-processing (styles, light/dark/syntax-theme, 24-bit-color, whitespace-error-style) are not used as probes".into(),
         "std's RandomState draws its keys through getrandom(2), which the shim owns; a canary in the determinism self-test confirms iteration order varies with the seed".into(),
     ];
